@@ -34,6 +34,8 @@ TRUSTED = [
     'the re engine (each regex replaced by a scanner), str.strip/split/isspace (py_isspace table compared with CPython on every run), '
     'ast.literal_eval, inspect.stack frame walk',
     'extraction (ExtrOcamlBasic only) + ocaml/driver.ml; this harness (printer, canonicalisers)',
+    'source translator tools/gen/gen_polib_src.py (lib/polib4us.py: regex texts, polib_unescape, Codecs.open, detect_encoding / POFile.find / '
+    'default_encoding patches -> Generated/PolibSrc.v; rules in its docstring) + its vocabulary Model/PoPy.v (the regex engine = the model\'s scanners)',
 ]
 ASSUME = ['the codec of the file is ASCII-compatible and stateless on the rendered text (checked per case: encode/decode round trip)',
           'C10_load_po_render: the whole-file decode and codecs.lookup are oracle hypotheses of the theorem (answered by CPython in the harness)']
